@@ -151,15 +151,15 @@ def classify_squash(key, term):
     return None
 
 
-def rule_b(R, ctx):
+def rule_b(R, ctx, rid="C03.b"):
     Y = ctx.yrs
-    R.rule("C03.b", "R-GUARD squash preconditions: the mutating part of ItemPtr::try_squash is reached only under the conjunction "
+    R.rule(rid, "R-GUARD squash preconditions: the mutating part of ItemPtr::try_squash is reached only under the conjunction "
                     "{same client; clock+len == other.clock; other.origin == Some(self.last_id()); equal right_origin; "
                     "self.right == Some(other); equal deleted flag; neither redone; neither linked; content.try_squash}")
     fn = Y.fn("yrs::block::ItemPtr::try_squash")
     fm = Formulas(fn, simp_deep)
     ws = fn.field_writes("Item.len") + fn.field_writes("Item.right") + fn.field_writes("Item.left")
-    R.floor("C03.b", "mutations in ItemPtr::try_squash", len(ws), 3)
+    R.floor(rid, "mutations in ItemPtr::try_squash", len(ws), 3)
     names = [n.lstrip("!") for n, _ in SQUASH_ATOMS if not n.endswith("_deleted")]
     for k, (i, j, s) in enumerate(ws):
         f = fm.reach(i)
@@ -176,7 +176,7 @@ def rule_b(R, ctx):
         ok, cex, keys = truth_check(f, classify_squash, required, max_atoms=16)
         dst = s.get("dst")
         fld = [p for p in dst["p"] if isinstance(p, str) and p != "*"][-1].rsplit(".", 1)[-1] if isinstance(dst, dict) else "?"
-        R.ob("C03.b", fn, "write:%s#%d" % (fld, k), ok and not missing,
+        R.ob(rid, fn, "write:%s#%d" % (fld, k), ok and not missing,
              ("missing conjuncts %s; " % missing if missing else "") +
              ("reach condition = %s" % fshow(f) if ok else "a path reaches the mutation with a conjunct false: %s" % (cex,)),
              "%s:%s" % (fn.file, s["line"]))
